@@ -20,7 +20,7 @@ pub fn seeded_rng(salt: u64) -> bc_rand::SeededRandomNumberGenerator {
 
 // ------------------------------------------------------------------------------------ C04
 
-const N_OPS: usize = 31;
+const N_OPS: usize = 32;
 /// apply operation `k`; Ok(None) = operation not applicable to this state (documented error returned)
 fn apply(k: usize, e: &Envelope, step: u32) -> R<Option<Envelope>> {
     let fresh = |j: u32| 700 + step * 20 + j;
@@ -116,6 +116,19 @@ fn apply(k: usize, e: &Envelope, step: u32) -> R<Option<Envelope>> {
             }
             None
         }
+        30 => {
+            // the replacement has the digest of the assertion it replaces (the assertion itself, or an obscured form of it)
+            op("replace_assertion (replacement has the same digest)");
+            let asr = e.assertions(); if asr.is_empty() { return Ok(None); }
+            let i = choice(asr.len());
+            let twin = match choice(3) { 0 => asr[i].clone(), 1 => asr[i].elide(), _ => match asr[i].compress() { Ok(c) => c, Err(_) => return Ok(None) } };
+            let r = must!(e.replace_assertion(asr[i].clone(), twin.clone()), "replace refused");
+            ensure!(dg(&r) == dg(e), "replacing an assertion by an element of the same digest changed the root digest", "");
+            let ra = r.assertions();
+            ensure!(ra.len() == asr.len(), "replacing an assertion by an element of the same digest changed the number of assertions", "{} -> {}", asr.len(), ra.len());
+            ensure!(ra.iter().any(|x| bytes(x) == bytes(&twin)), "the replacement is not among the result's assertions", "");
+            Some(r)
+        }
         _ => { op("encode->decode"); Some(must!(Envelope::try_from_cbor_data(bytes(e)), "decode of own encoding failed")) }
     })
 }
@@ -144,7 +157,7 @@ fn sequences_with(len: usize, reduced: bool) -> R {
     if let Err(m) = well_formed(&e) { return rt::viol("freshly built envelope not canonical", m); }
     let mut trace = vec![s.show()];
     // structural operations that re-sort / merge / collapse; the others are exercised at length 2
-    let core: [usize; 14] = [0, 1, 2, 4, 5, 6, 7, 9, 14, 16, 23, 24, 26, 28];
+    let core: [usize; 15] = [0, 1, 2, 4, 5, 6, 7, 9, 14, 16, 23, 24, 26, 28, 30];
     for step in 0..len {
         let quick_core: [usize; 10] = [0, 2, 4, 5, 6, 7, 9, 14, 16, 24];
         let len4_core: [usize; 8] = [0, 2, 4, 5, 6, 7, 9, 24];
@@ -162,6 +175,43 @@ fn sequences_with(len: usize, reduced: bool) -> R {
     rt::note(format!("{:?}", trace));
     Ok(())
 }
+/// elements a key holder / sender can hand over through the public conversions: an encrypted or compressed element whose
+/// declared digest is not that of its content, bare or carrying assertions; whatever an operation returns for it is well-formed
+fn crafted() -> R {
+    let content = [l(1), n(l(1), vec![a(l(2), l(3))]), w(l(1)), a(l(1), l(2))];
+    let declared = [l(101), n(l(101), vec![a(l(102), l(103))]), l(1)];
+    let (sc, sd) = (&content[choice(content.len())], &declared[choice(declared.len())]);
+    let (ec, ed) = (build(sc), build(sd));
+    let key = test_key();
+    let enc = choice(2) == 0;
+    op("Envelope::try_from(EncryptedMessage / Compressed) with a declared digest");
+    let forged = if enc {
+        must!(Envelope::try_from(key.encrypt_with_digest(bytes(&ec), ed.digest().into_owned(), Some(bc_components::Nonce::from_data_ref([7u8; 12]).unwrap()))), "encrypted message with digest refused")
+    } else {
+        must!(Envelope::try_from(bc_components::Compressed::from_uncompressed_data(bytes(&ec), Some(ed.digest().into_owned()))), "compressed with digest refused")
+    };
+    let nass = choice(3);
+    let mut f = forged;
+    for i in 0..nass { f = must!(f.add_assertion_envelope(build(&a(l(700 + 2 * i as u32), l(701 + 2 * i as u32)))), "add refused"); }
+    if choice(2) == 1 { f = must!(Envelope::try_from_cbor_data(bytes(&f)), "decode of own encoding failed"); }
+    if let Err(m) = well_formed(&f) { return rt::viol("result not canonical / well-formed", format!("crafted element: {}", m)); }
+    rt::note(format!("{} content {} declared as {} with {} assertions", if enc { "encrypted" } else { "compressed" }, sc.show(), sd.show(), nass));
+    let before = bytes(&f);
+    let r: Option<Envelope> = match choice(6) {
+        0 => { op("decrypt_subject"); f.decrypt_subject(&key).ok() }
+        1 => { op("uncompress_subject"); f.uncompress_subject().ok() }
+        2 => { op("uncompress"); f.uncompress().ok() }
+        3 => { op("compress_subject"); f.compress_subject().ok() }
+        4 => { op("encrypt_subject"); f.encrypt_subject(&key).ok() }
+        _ => { op("replace_subject"); Some(f.replace_subject(build(&l(9)))) }
+    };
+    ensure!(bytes(&f) == before, "operation altered its receiver", "");
+    if let Some(x) = r {
+        if let Err(m) = well_formed(&x) { return rt::viol("result not canonical / well-formed", format!("{} on a crafted {} element: {}", crate::engine::cur_op(), if enc { "encrypted" } else { "compressed" }, m)); }
+    }
+    Ok(())
+}
+
 fn seq2() -> R { sequences_with(2, false) }
 fn seq3() -> R { sequences_with(3, true) }
 fn seq3_full() -> R { sequences_with(3, false) }
@@ -500,12 +550,15 @@ pub fn prop_c04() -> Prop {
         id: "C04",
         scenarios: vec![
             Scenario { name: "sequences2", f: seq2, thorough_only: false,
-                bounds: "13 start envelopes (leaf, known value, assertion, wrapped, nodes with 1-3 assertions, decorated assertion, wrapped node subject, elided / compressed / encrypted children, assertion subject) x every sequence of 2 operations out of 31 (every adding entry point with a non-assertion argument, replace_assertion with an invalid / already present replacement, replace_subject by the envelope itself / by a node sharing an assertion, add, add duplicate, add an elided/compressed copy of a present assertion, add the clear copy of an elided assertion, remove present/absent, replace assertion, replace subject by leaf / by node, wrap, unwrap, elide removing / revealing, compress(_subject), uncompress(_subject), encrypt_subject, decrypt_subject, add_salt_instance, add_assertion_salted, add_signature, add_recipient, add_type, add_attachment, encode->decode) with every argument choice x every digest order; after each step: structure well-formed, stored digests == recomputed, serialized bytes accepted by an independent grammar recogniser, assertion elements strictly ascending under the path condition, receiver unchanged",
+                bounds: "13 start envelopes (leaf, known value, assertion, wrapped, nodes with 1-3 assertions, decorated assertion, wrapped node subject, elided / compressed / encrypted children, assertion subject) x every sequence of 2 operations out of 32 (replace_assertion by the assertion itself / its elided / compressed form, every adding entry point with a non-assertion argument, replace_assertion with an invalid / already present replacement, replace_subject by the envelope itself / by a node sharing an assertion, add, add duplicate, add an elided/compressed copy of a present assertion, add the clear copy of an elided assertion, remove present/absent, replace assertion, replace subject by leaf / by node, wrap, unwrap, elide removing / revealing, compress(_subject), uncompress(_subject), encrypt_subject, decrypt_subject, add_salt_instance, add_assertion_salted, add_signature, add_recipient, add_type, add_attachment, encode->decode) with every argument choice x every digest order; after each step: structure well-formed, stored digests == recomputed, serialized bytes accepted by an independent grammar recogniser, assertion elements strictly ascending under the path condition, receiver unchanged",
                 api: &["add_assertion", "add_assertion_envelope", "remove_assertion", "replace_assertion", "replace_subject", "wrap_envelope", "unwrap_envelope", "elide_removing_target", "elide_revealing_array", "compress", "compress_subject", "uncompress", "uncompress_subject", "encrypt_subject", "decrypt_subject", "add_salt_instance", "add_assertion_salted", "add_signature", "add_recipient", "add_type", "add_attachment", "try_from_cbor_data", "tagged_cbor"] },
             Scenario { name: "sequences3", f: seq3, thorough_only: false,
-                bounds: "7 node-shaped starts (quick) / all 13 (thorough) x every sequence of 3 operations out of 10 structural ones (quick) / 14 (thorough) (replace with a present twin, replace_subject by a node sharing an assertion, add, add duplicate, add obscured/clear copy of a present assertion, remove, replace assertion, replace subject by leaf / node, wrap, elide, uncompress_subject, decrypt_subject) x every digest order",
+                bounds: "7 node-shaped starts (quick) / all 13 (thorough) x every sequence of 3 operations out of 10 structural ones (quick) / 15 (thorough) (replace by an element of the same digest, replace with a present twin, replace_subject by a node sharing an assertion, add, add duplicate, add obscured/clear copy of a present assertion, remove, replace assertion, replace subject by leaf / node, wrap, elide, uncompress_subject, decrypt_subject) x every digest order",
                 api: &["add_assertion", "add_assertion_envelope", "remove_assertion", "replace_assertion", "replace_subject", "wrap_envelope", "elide_removing_target", "uncompress_subject", "decrypt_subject"] },
-            Scenario { name: "sequences3_full", f: seq3_full, thorough_only: true, bounds: "every sequence of 3 operations out of all 31", api: &["(all of sequences2)"] },
+            Scenario { name: "crafted", f: crafted, thorough_only: false,
+                bounds: "an encrypted or compressed element built through the public conversions whose content (leaf, node, wrapped, assertion) does not hash to the digest it declares (3 declared digests, one of them honest) x 0..2 assertions added x as built / after encode->decode x one of 6 operations (decrypt_subject, uncompress_subject, uncompress, compress_subject, encrypt_subject, replace_subject) x every digest order: whatever is returned is well-formed and its stored digests agree with recomputation",
+                api: &["TryFrom<EncryptedMessage> for Envelope", "TryFrom<Compressed> for Envelope", "add_assertion_envelope", "decrypt_subject", "uncompress_subject", "uncompress", "compress_subject", "encrypt_subject", "replace_subject", "try_from_cbor_data"] },
+            Scenario { name: "sequences3_full", f: seq3_full, thorough_only: true, bounds: "every sequence of 3 operations out of all 32", api: &["(all of sequences2)"] },
             Scenario { name: "sequences4", f: seq4, thorough_only: true, bounds: "7 node-shaped starts x every sequence of 4 operations out of 8 (add, remove, replace assertion, replace subject by leaf / node, wrap, elide, add the clear copy of an elided assertion) x every digest order", api: &["(all of sequences3)"] },
         ],
         assumptions: COMMON_ASSUMPTIONS.to_vec(),
